@@ -18,7 +18,7 @@ build_translator() {
 }
 
 build_coq() {
-  (cd coq && coq_makefile -f _CoqProject -o Makefile >/dev/null && timeout 3000 make -j16 2>&1) > build/coq.log || { tail -40 build/coq.log; echo "COQ BUILD FAILED"; return 1; }
+  (cd coq && { echo "-Q . SVC"; find Base Model gen Proofs Properties -name '*.v' 2>/dev/null | LC_ALL=C sort; } > _CoqProject && coq_makefile -f _CoqProject -o Makefile >/dev/null && timeout 3000 make -j16 2>&1) > build/coq.log || { tail -40 build/coq.log; echo "COQ BUILD FAILED"; return 1; }
 }
 
 build_model() {
@@ -26,6 +26,8 @@ build_model() {
   cp coq/Extract/*.ml coq/Extract/*.mli ocaml/*.ml build/
   (cd build && ocamlfind ocamlopt -package zarith -linkpkg -O3 -w -a model.mli model.ml driver.ml -o model 2>&1 | grep -v "^$" || true)
   test -x build/model
+  (cd build && ocamlfind ocamlopt -package zarith -linkpkg -O3 -w -a model.mli model.ml price_driver.ml -o price_model 2>&1 | grep -v "^$" || true)
+  test -x build/price_model
 }
 
 build_harness() {
